@@ -8,8 +8,10 @@
 # Prints, per break, the violation keys that appear in addition to the baseline's.
 import sys, os, subprocess, shutil, re, json
 WT=os.environ.get('MUT_WT','/tmp/wt-c10c08')  # MUT_WT=<worktree> selects another scratch worktree
-FILES=['amd/emu/computeunit.go','amd/timing/cu/wfdispatcher.go','amd/driver/api.go','amd/driver/context.go','amd/driver/distributor.go','amd/driver/driver.go','amd/driver/internal/devicebuddymemstate.go','amd/driver/internal/memoryallocator.go','amd/driver/internal/devicememstateinterface.go','amd/driver/internal/device.go','amd/kernels/gridbuilder.go','amd/timing/cp/internal/dispatching/partition.go','amd/timing/cp/internal/dispatching/roundrobin.go','amd/insts/hsaco.go']
+FILES=['amd/emu/computeunit.go','amd/timing/cu/wfdispatcher.go','amd/driver/api.go','amd/driver/context.go','amd/driver/distributor.go','amd/driver/driver.go','amd/driver/internal/devicebuddymemstate.go','amd/driver/internal/memoryallocator.go','amd/driver/internal/devicememstateinterface.go','amd/driver/internal/device.go','amd/kernels/gridbuilder.go','amd/timing/cp/internal/dispatching/partition.go','amd/timing/cp/internal/dispatching/roundrobin.go','amd/insts/hsaco.go','amd/timing/cp/internal/dispatching/dispatcher.go']
 HS='amd/insts/hsaco.go'
+DISP='amd/timing/cp/internal/dispatching/dispatcher.go'
+GB='amd/kernels/gridbuilder.go'
 PART='amd/timing/cp/internal/dispatching/partition.go'
 RR='amd/timing/cp/internal/dispatching/roundrobin.go'
 MA='amd/driver/internal/memoryallocator.go'
@@ -154,6 +156,10 @@ MUTS={
  'c08-ld-m1-v3-header-drops-wgid-y': (HS, "	meta.ComputePgmRsrc2 = binary.LittleEndian.Uint32(data[52:56])\n\n	flags := binary.LittleEndian.Uint32(data[56:60])", "	meta.ComputePgmRsrc2 = binary.LittleEndian.Uint32(data[52:56]) &^ (1 << 8)\n\n	flags := binary.LittleEndian.Uint32(data[56:60])"),
  'c08-ld-m2-v3-header-workitem-id-from-wrong-bits': (HS, "	meta.ComputePgmRsrc2 = binary.LittleEndian.Uint32(data[52:56])\n\n	flags := binary.LittleEndian.Uint32(data[56:60])", "	meta.ComputePgmRsrc2 = binary.LittleEndian.Uint32(data[52:56]) &^ (2 << 11)\n\n	flags := binary.LittleEndian.Uint32(data[56:60])"),
  'c08-ld-m3-v5-kernel-bytes-off-by-header': (HS, "				co.Data = kernelData // V5: entire kernel data is instructions", "				co.Data = kernelData[4:] // V5: entire kernel data is instructions"),
+ # ---- C08 launch histories mixing unified and plain devices (L6)
+ 'c08-hist-seed7-dispatcher-keeps-last-filter': (DISP, 'func (d *DispatcherImpl) StartDispatching(req *protocol.LaunchKernelReq) {\n\td.mustNotBeDispatchingAnotherKernel()\n\n\td.alg.StartNewKernel(kernels.KernelLaunchInfo{\n\t\tCodeObject: req.CodeObject,\n\t\tPacket:     req.Packet,\n\t\tPacketAddr: req.PacketAddress,\n\t\tWGFilter:   req.WGFilter,\n\t})\n', 'var verifLaunchInfo = map[*DispatcherImpl]*kernels.KernelLaunchInfo{}\n\nfunc (d *DispatcherImpl) StartDispatching(req *protocol.LaunchKernelReq) {\n\td.mustNotBeDispatchingAnotherKernel()\n\n\tli := verifLaunchInfo[d]\n\tif li == nil {\n\t\tli = &kernels.KernelLaunchInfo{}\n\t\tverifLaunchInfo[d] = li\n\t}\n\tli.CodeObject = req.CodeObject\n\tli.Packet = req.Packet\n\tli.PacketAddr = req.PacketAddress\n\tif req.WGFilter != nil {\n\t\tli.WGFilter = req.WGFilter\n\t}\n\td.alg.StartNewKernel(*li)\n'),
+ 'c08-hist-m1-gridbuilder-keeps-last-filter': (GB, "	b.filter = info.WGFilter\n", "	if info.WGFilter != nil {\n		b.filter = info.WGFilter\n	}\n"),
+ 'c08-hist-m2-gridbuilder-y-cursor-not-reset': (GB, "	b.xid = 0\n	b.yid = 0\n	b.zid = 0\n", "	b.xid = 0\n	b.zid = 0\n"),
 }
 HERE=os.path.dirname(os.path.abspath(__file__))
 FIXES=['fix_c10_A_allocator_pid_key_and_free_all_pages.diff','fix_c10_B_removeFreedBuffers.diff','fix_c10_C_buddy_parent_merge_bit.diff','fix_c08_formWavefronts.diff']
